@@ -8,6 +8,12 @@
 //	same request returns in isolation (signature applied to THAT request's
 //	body verifies and names THAT request's key, digest and options);
 //
+//	the requests come from several clients with different role sets over keys
+//	with different role lists (sequentially: every history of <=2 requests on
+//	one server; and interleaved), and a token operation (ping, key lookup,
+//	signing) of one thread may stall for as long as anything else can happen:
+//	requests that do not need that token must be answered meanwhile;
+//
 // (b) the same thread bodies run free (real goroutines, real sync) under the
 //
 //	race detector (separate binary .build/bin/c14race built by pre.sh);
@@ -21,8 +27,10 @@ import (
 	"bytes"
 	"compress/gzip"
 	"context"
+	"crypto/sha256"
 	"crypto/tls"
 	"crypto/x509"
+	"encoding/hex"
 	"encoding/json"
 	"fmt"
 	"io"
@@ -70,6 +78,66 @@ type op struct {
 	// Gzip: the client asks for a gzip-compressed response (curl --compressed,
 	// a browser; relic's own client prefers snappy).
 	Gzip bool
+	// Client: which configured client sends the request ("" = the default client
+	// holding role r; see clients).
+	Client string
+}
+
+// client is one caller identity: a certificate (known to the server by the
+// fingerprint of its public key, or not at all) and the roles configured for it.
+type client struct {
+	Leaf     string // fixture whose leaf certificate the client presents
+	Nickname string
+	Roles    []string // nil: the certificate is not configured on the server
+}
+
+// The role sets select different, partly overlapping subsets of the keys (see
+// mkConfig): r sees every key of the base configuration, rel and night two
+// different subsets, both their union, norole nothing; stranger is turned away.
+var clients = map[string]client{
+	"":         {"rsaB", "verif-client", []string{"r"}},
+	"rel":      {"p256B", "release-eng", []string{"rel"}},
+	"night":    {"p384", "nightly-builder", []string{"night"}},
+	"both":     {"p521", "both-teams", []string{"rel", "night"}},
+	"norole":   {"p256A", "no-role", []string{"unused"}},
+	"stranger": {"rsaA", "", nil},
+}
+
+var clientOrder = []string{"", "rel", "night", "both", "norole", "stranger"}
+
+var (
+	certMu    sync.Mutex
+	certCache = map[string]*x509.Certificate{}
+)
+
+func clientCert(name string) *x509.Certificate {
+	certMu.Lock()
+	defer certMu.Unlock()
+	c := certCache[name]
+	if c == nil {
+		c = relicx.LeafOf(clients[name].Leaf)
+		certCache[name] = c
+	}
+	return c
+}
+
+// keyFixture: which fixture key pair a configured key name uses; keyTarget:
+// the name an alias resolves to (what the audit record names).
+var keyFixture = map[string]string{"aliasA": "rsaA", "relonly": "rsaB", "nightonly": "p521", "aliasNight": "p521", "t2key": "p384"}
+var keyTarget = map[string]string{"aliasA": "rsaA", "aliasNight": "nightonly"}
+
+func fixtureOf(key string) string {
+	if f, ok := keyFixture[key]; ok {
+		return f
+	}
+	return key
+}
+
+func targetOf(key string) string {
+	if t, ok := keyTarget[key]; ok {
+		return t
+	}
+	return key
 }
 
 // request contexts of the clients that may go away, per execution
@@ -97,15 +165,19 @@ func resetLeaves(sc scenario) {
 }
 
 func (o op) String() string {
+	who := ""
+	if o.Client != "" {
+		who = "@" + o.Client
+	}
 	switch o.Kind {
 	case "sign":
-		return fmt.Sprintf("sign(%s,%s,%s,%q)", o.Name, o.Key, o.Digest, o.Desc)
+		return fmt.Sprintf("sign(%s,%s,%s,%q)%s", o.Name, o.Key, o.Digest, o.Desc, who)
 	case "keyinfo":
-		return "keyinfo(" + o.Key + ")"
+		return "keyinfo(" + o.Key + ")" + who
 	case "hangup":
 		return "hangup(" + o.Target + ")"
 	}
-	return o.Kind
+	return o.Kind + who
 }
 
 func body(o op) []byte { return []byte("Write-Host '" + o.Name + "'\r\n# body of " + o.Name + "\r\n") }
@@ -144,7 +216,7 @@ func (o op) request() *http.Request {
 		leaveMu.Unlock()
 	}
 	req.RemoteAddr = "192.0.2.77:4444"
-	req.TLS = &tls.ConnectionState{PeerCertificates: []*x509.Certificate{relicx.ClientCert()}}
+	req.TLS = &tls.ConnectionState{PeerCertificates: []*x509.Certificate{clientCert(o.Client)}}
 	return req
 }
 
@@ -158,10 +230,45 @@ type outcome struct {
 // rateLimited: the scenario's tokens are configured with tokens.<name>.ratelimit
 var rateLimited bool
 
+// twoTokens: the configuration has a second token (tok2) serving key t2key
+var twoTokens bool
+
+func fingerprintOf(c *x509.Certificate) string {
+	d := sha256.Sum256(c.RawSubjectPublicKeyInfo)
+	return hex.EncodeToString(d[:])
+}
+
 func mkConfig(audit string) *config.Config {
 	cfg := relicx.ServerConfig(faketoken.Type)
 	cfg.AuditFile = audit
 	cfg.Keys["aliasA"] = &config.KeyConfig{Alias: "rsaA"}
+	// several clients with different role sets ...
+	if fingerprintOf(clientCert("")) != fingerprintOf(relicx.ClientCert()) {
+		panic("default client is not relicx's client")
+	}
+	for name, cl := range clients {
+		if cl.Roles != nil {
+			cfg.Clients[fingerprintOf(clientCert(name))] = &config.ClientConfig{Nickname: cl.Nickname, Roles: cl.Roles}
+		}
+	}
+	// ... over keys with different role lists. Every key of the base
+	// configuration stays usable with role r.
+	for key, more := range map[string][]string{"rsaA": {"rel"}, "p256A": {"night"}, "p256B": {"rel", "night"}, "p384": {"night"}} {
+		cfg.Keys[key].Roles = append([]string{"r"}, more...)
+	}
+	mk := func(fixture string, roles ...string) *config.KeyConfig {
+		return &config.KeyConfig{Token: "tok", KeyFile: filepath.Join(relicx.KeyDir, fixture+".key"),
+			X509Certificate: filepath.Join(relicx.KeyDir, fixture+".chain.crt"), Roles: roles}
+	}
+	cfg.Keys["relonly"] = mk("rsaB", "rel")
+	cfg.Keys["nightonly"] = mk("p521", "night")
+	cfg.Keys["aliasNight"] = &config.KeyConfig{Alias: "nightonly"}
+	if twoTokens {
+		empty := ""
+		cfg.Tokens["tok2"] = &config.TokenConfig{Type: faketoken.Type, Pin: &empty}
+		cfg.Keys["t2key"] = mk("p384", "r")
+		cfg.Keys["t2key"].Token = "tok2"
+	}
 	cfg.Server.TokenCacheSeconds = 600
 	if rateLimited {
 		// a limit far above anything the scenario can reach: the limiter is in
@@ -254,11 +361,7 @@ func checkSign(o op, out outcome) string {
 		return "signature does not verify against this request's body: " + err.Error()
 	}
 	sig := sigs[len(sigs)-1]
-	key := o.Key
-	if key == "aliasA" {
-		key = "rsaA"
-	}
-	if !sig.X509Signature.Certificate.Equal(relicx.LeafOf(key)) {
+	if !sig.X509Signature.Certificate.Equal(relicx.LeafOf(fixtureOf(o.Key))) {
 		return "signed with another key: " + sig.X509Signature.Certificate.Subject.String()
 	}
 	if sig.Hash != relicx.HashByName(o.Digest) {
@@ -276,6 +379,33 @@ func checkSign(o op, out outcome) string {
 type scenario struct {
 	Name    string
 	Threads [][]op
+	// Stall: the first token operation of this kind (and key, if named) that a
+	// thread reaches does not return until nothing else in the execution can
+	// happen any more - a slow HSM, a KMS call that runs into its timeout. Whatever
+	// is then still waiting has waited for the token.
+	Stall *stall
+}
+
+type stall struct {
+	Op  string // ping | getkey | sign
+	Key string
+	Tok string // the token the stalled operation belongs to
+}
+
+// needsToken: which token a request cannot be answered without ("" = none:
+// health, key listing and the home page are answered from the configuration and
+// the last recorded health state; "*" = every token).
+func needsToken(o op) string {
+	switch o.Kind {
+	case "sign", "keyinfo":
+		if o.Key == "t2key" {
+			return "tok2"
+		}
+		return "tok"
+	case "healthcheck", "close":
+		return "*"
+	}
+	return ""
 }
 
 type pointWriter struct{ *httptest.ResponseRecorder }
@@ -291,40 +421,59 @@ func (p pointWriter) Write(b []byte) (int, error) {
 
 func gz(o op, name string) op { o.Gzip = true; o.Name = name; return o }
 
+func by(client string, o op) op { o.Client = client; return o }
+
 func scenarios(thorough bool) []scenario {
 	sA := op{Kind: "sign", Name: "a.ps1", Key: "rsaA", Digest: "sha256"}
 	sB := op{Kind: "sign", Name: "b.ps1", Key: "p256A", Digest: "sha384", Desc: "opus-b"}
 	sA2 := op{Kind: "sign", Name: "a2.ps1", Key: "rsaA", Digest: "sha512", Desc: "opus-a2"}
 	sAl := op{Kind: "sign", Name: "al.ps1", Key: "aliasA", Digest: "sha256"}
 	sLeave := op{Kind: "sign", Name: "leaves.ps1", Key: "rsaA", Digest: "sha256", Leaves: true}
+	sT2 := op{Kind: "sign", Name: "t2.ps1", Key: "t2key", Digest: "sha256"}
+	lst := op{Kind: "list"}
 	sc := []scenario{
-		{"two-keys", [][]op{{sA}, {sB}}},
-		{"same-key-cache-contention", [][]op{{sA}, {sA2}}},
-		{"alias-and-direct", [][]op{{sAl}, {sA2}}},
-		{"sign-list-keyinfo", [][]op{{sA}, {{Kind: "list"}, {Kind: "keyinfo", Key: "p256A"}}}},
-		{"sign-healthcheck-health", [][]op{{sB}, {{Kind: "healthcheck"}, {Kind: "health"}}}},
-		{"cache-expiry-between-signs", [][]op{{sA, sA2}, {{Kind: "expire"}, sAl}}},
+		{"two-keys", [][]op{{sA}, {sB}}, nil},
+		{"same-key-cache-contention", [][]op{{sA}, {sA2}}, nil},
+		{"alias-and-direct", [][]op{{sAl}, {sA2}}, nil},
+		{"sign-list-keyinfo", [][]op{{sA}, {{Kind: "list"}, {Kind: "keyinfo", Key: "p256A"}}}, nil},
+		{"sign-healthcheck-health", [][]op{{sB}, {{Kind: "healthcheck"}, {Kind: "health"}}}, nil},
+		{"cache-expiry-between-signs", [][]op{{sA, sA2}, {{Kind: "expire"}, sAl}}, nil},
 		// Close is issued once (the daemon guarantees that); a second Close after
 		// the first has returned must be harmless
-		{"close-during-healthcheck", [][]op{{{Kind: "close"}, {Kind: "close"}}, {{Kind: "healthcheck"}}, {{Kind: "health"}}}},
-		{"three-signers", [][]op{{sA}, {sB}, {sA2}}},
+		{"close-during-healthcheck", [][]op{{{Kind: "close"}, {Kind: "close"}}, {{Kind: "healthcheck"}}, {{Kind: "health"}}}, nil},
+		{"three-signers", [][]op{{sA}, {sB}, {sA2}}, nil},
 		// one client goes away while its request is somewhere inside the server: the
 		// other request for the same key must not notice
-		{"same-key-one-client-hangs-up", [][]op{{sLeave}, {sA2}, {{Kind: "hangup", Target: sLeave.Name}}}},
+		{"same-key-one-client-hangs-up", [][]op{{sLeave}, {sA2}, {{Kind: "hangup", Target: sLeave.Name}}}, nil},
 		// clients that take gzip responses: one response completes, then two overlap
 		// tokens.<name>.ratelimit configured: the limiter hands out the key objects
 		// the cache keeps; a later request gets the object an earlier, finished or
 		// abandoned request fetched
-		{"rate-limited-key-reused-after-request-ended", [][]op{{sA, sA2}, {sB}}},
-		{"rate-limited-same-key-one-client-hangs-up", [][]op{{sLeave}, {sA2}, {{Kind: "hangup", Target: sLeave.Name}}}},
-		{"gzip-responses-overlap-after-an-earlier-one", [][]op{{gz(sA, "g1.ps1"), gz(sB, "g2.ps1")}, {gz(sA2, "g3.ps1")}}},
+		{"rate-limited-key-reused-after-request-ended", [][]op{{sA, sA2}, {sB}}, nil},
+		{"rate-limited-same-key-one-client-hangs-up", [][]op{{sLeave}, {sA2}, {{Kind: "hangup", Target: sLeave.Name}}}, nil},
+		{"gzip-responses-overlap-after-an-earlier-one", [][]op{{gz(sA, "g1.ps1"), gz(sB, "g2.ps1")}, {gz(sA2, "g3.ps1")}}, nil},
+		// clients with different role sets on one server, overlapping
+		{"clients-listings-overlap", [][]op{{by("rel", lst), by("night", lst)}, {by("both", lst), lst}, {by("norole", lst)}}, nil},
+		{"clients-sign-keyinfo-list-overlap", [][]op{
+			{by("rel", op{Kind: "sign", Name: "rel.ps1", Key: "aliasA", Digest: "sha256"}), by("rel", op{Kind: "keyinfo", Key: "nightonly"}), by("rel", lst)},
+			{by("night", op{Kind: "sign", Name: "night.ps1", Key: "aliasNight", Digest: "sha384", Desc: "opus-night"}), by("night", lst), by("both", op{Kind: "keyinfo", Key: "relonly"})}}, nil},
+		// a token operation of one request stalls; what needs no token (or another
+		// token) is answered meanwhile
+		{"stalled-ping", [][]op{{{Kind: "healthcheck"}}, {{Kind: "health"}, lst, {Kind: "home"}}}, &stall{"ping", "", "tok"}},
+		{"stalled-getkey", [][]op{{sA}, {{Kind: "health"}, by("night", lst), sB}}, &stall{"getkey", "rsaA", "tok"}},
+		{"stalled-sign", [][]op{{sA}, {lst, {Kind: "health"}, {Kind: "keyinfo", Key: "p256A"}}}, &stall{"sign", "rsaA", "tok"}},
+		{"two-tokens-stalled-getkey", [][]op{{sA}, {sT2, {Kind: "keyinfo", Key: "t2key"}, {Kind: "health"}}}, &stall{"getkey", "rsaA", "tok"}},
+		{"two-tokens-stalled-sign-on-the-other-token", [][]op{{sT2}, {sA, lst}}, &stall{"sign", "t2key", "tok2"}},
 	}
 	if thorough {
 		sc = append(sc,
-			scenario{"three-mixed", [][]op{{sA, {Kind: "list"}}, {sB}, {{Kind: "healthcheck"}, {Kind: "health"}}}},
-			scenario{"two-requests-each", [][]op{{sA, sB}, {sA2, sAl}}},
-			scenario{"other-key-one-client-hangs-up", [][]op{{sLeave, {Kind: "list"}}, {sB}, {{Kind: "hangup", Target: sLeave.Name}}}},
-			scenario{"expired-cache-one-client-hangs-up", [][]op{{sA, {Kind: "expire"}, sLeave}, {sA2}, {{Kind: "hangup", Target: sLeave.Name}}}},
+			scenario{"three-mixed", [][]op{{sA, {Kind: "list"}}, {sB}, {{Kind: "healthcheck"}, {Kind: "health"}}}, nil},
+			scenario{"two-requests-each", [][]op{{sA, sB}, {sA2, sAl}}, nil},
+			scenario{"other-key-one-client-hangs-up", [][]op{{sLeave, {Kind: "list"}}, {sB}, {{Kind: "hangup", Target: sLeave.Name}}}, nil},
+			scenario{"stalled-ping-three-threads", [][]op{{{Kind: "healthcheck"}}, {{Kind: "health"}, sB}, {by("night", lst), {Kind: "health"}}}, &stall{"ping", "", "tok"}},
+			scenario{"stalled-getkey-three-threads", [][]op{{sA}, {{Kind: "health"}, {Kind: "home"}}, {by("rel", lst), sA2}}, &stall{"getkey", "rsaA", "tok"}},
+			scenario{"two-tokens-stalled-getkey-on-the-other-token", [][]op{{sT2}, {sA, {Kind: "keyinfo", Key: "p256A"}, lst}}, &stall{"getkey", "t2key", "tok2"}},
+			scenario{"expired-cache-one-client-hangs-up", [][]op{{sA, {Kind: "expire"}, sLeave}, {sA2}, {{Kind: "hangup", Target: sLeave.Name}}}, nil},
 		)
 	}
 	return sc
@@ -344,18 +493,32 @@ func auditNames(blob []byte) (names []string, torn int) {
 		if x, ok := m["attributes"].(map[string]any); ok {
 			a = x
 		}
-		names = append(names, fmt.Sprintf("%v|%v|%v", a["client.filename"], a["sig.keyname"], a["sig.hash"]))
+		names = append(names, fmt.Sprintf("%v|%v|%v|%v", a["client.filename"], a["sig.keyname"], a["sig.hash"], a["client.name"]))
 	}
 	return
 }
 
+// isoCache: the response of one request alone on a fresh server, per
+// configuration variant (it depends on nothing else).
+var isoCache = map[string]outcome{}
+
+func configure(sc scenario) {
+	rateLimited = strings.HasPrefix(sc.Name, "rate-limited-")
+	twoTokens = strings.HasPrefix(sc.Name, "two-tokens-")
+}
+
 // isolation runs every op alone on a fresh server: the expected responses.
 func isolation(sc scenario) map[string]outcome {
-	rateLimited = strings.HasPrefix(sc.Name, "rate-limited-")
+	configure(sc)
 	exp := map[string]outcome{}
 	for _, th := range sc.Threads {
 		for _, o := range th {
 			if o.Kind == "close" || o.Kind == "expire" || o.Kind == "hangup" {
+				continue
+			}
+			ck := fmt.Sprintf("%v|%v|%s", rateLimited, twoTokens, o)
+			if e, ok := isoCache[ck]; ok {
+				exp[o.String()] = e
 				continue
 			}
 			resetLeaves(sc)
@@ -369,162 +532,386 @@ func isolation(sc scenario) map[string]outcome {
 			if err != nil {
 				panic(err)
 			}
-			exp[o.String()] = perform(srv, srv.Handler(), o)
+			e := perform(srv, srv.Handler(), o)
 			srv.Close()
+			if o.Kind == "sign" {
+				// a request that is answered 200 in isolation must be right in isolation;
+				// one that is refused (this client may not use this key, or is not known)
+				// must be refused the same way whatever else goes on
+				if e.Status == 200 {
+					if why := checkSign(o, e); why != "" {
+						fmt.Println("HARNESS-ERROR: isolated request fails:", o, why)
+						os.Exit(2)
+					}
+				} else if allowed(o) {
+					fmt.Printf("HARNESS-ERROR: isolated request of a client whose roles grant the key is refused: %s: %d %.100s\n", o, e.Status, e.Body)
+					os.Exit(2)
+				}
+			}
+			isoCache[ck] = e
+			exp[o.String()] = e
 		}
 	}
 	return exp
 }
 
+// allowed: the configuration (mkConfig) gives this op's client a role that this
+// op's key lists. Used only to make sure the isolated runs are not vacuous.
+func allowed(o op) bool {
+	roles := map[string][]string{"rsaA": {"r", "rel"}, "p256A": {"r", "night"}, "p256B": {"r", "rel", "night"}, "p384": {"r", "night"},
+		"relonly": {"rel"}, "nightonly": {"night"}, "t2key": {"r"}}
+	kr, ok := roles[targetOf(o.Key)]
+	if !ok {
+		kr = []string{"r"}
+	}
+	for _, a := range kr {
+		for _, b := range clients[o.Client].Roles {
+			if a == b {
+				return true
+			}
+		}
+	}
+	return false
+}
+
+type scenarioStats struct {
+	Executions, ChoicePoints int
+	AuditOrders              map[string]bool
+}
+
+// runScenario explores every interleaving of the scenario's threads with at
+// most bound preemptions and judges each execution.
+func runScenario(sc scenario, bound int, keyName string) scenarioStats {
+	exp := isolation(sc)
+	seenOrders := map[string]bool{}
+	st := mc.Explore(mc.Options{MaxDeviations: bound}, func(c *mc.Ctx) {
+		configure(sc)
+		vos.Reset()
+		vos.Mkdir("/vfs/audit")
+		vtime.ResetClock()
+		faketoken.Reset()
+		cfg := mkConfig(auditPath)
+		relicx.Use(cfg)
+		srv, err := server.New(cfg)
+		if err != nil {
+			panic(err)
+		}
+		h := srv.Handler()
+		resetLeaves(sc)
+		// the token honours the caller's context the way a rate-limited or
+		// remote token does: a lookup that is overtaken by the client going
+		// away fails with the context's error
+		faketoken.S.GetKey = func(ctx context.Context, tok, key string) (token.Key, error) {
+			return nil, ctx.Err()
+		}
+		s := mc.NewSched(c)
+		// the stalled token operation: the thread that reaches it first parks on
+		// gate; the gate opens when no thread can take a step any more
+		var (
+			stMu     sync.Mutex
+			parked   = -1
+			gateOpen bool
+			waiting  []op
+			gate     = new(int)
+			inflight = make([]*op, len(sc.Threads))
+		)
+		if sc.Stall != nil {
+			s.OnStuck = func() bool {
+				stMu.Lock()
+				defer stMu.Unlock()
+				if parked < 0 || gateOpen {
+					return false
+				}
+				for i, o := range inflight {
+					if i != parked && o != nil {
+						waiting = append(waiting, *o)
+					}
+				}
+				gateOpen = true
+				s.Unblock(gate)
+				return true
+			}
+		}
+		faketoken.S.Hook = func(call faketoken.Call) {
+			t := s.Me()
+			if t == nil {
+				return
+			}
+			t.Point("token." + call.Op)
+			if sc.Stall == nil || call.Op != sc.Stall.Op || call.Token != sc.Stall.Tok || sc.Stall.Key != "" && call.Key != sc.Stall.Key {
+				return
+			}
+			stMu.Lock()
+			first := parked < 0
+			if first {
+				parked = t.ID
+			}
+			stMu.Unlock()
+			for first && mc.Active() == s {
+				stMu.Lock()
+				open := gateOpen
+				stMu.Unlock()
+				if open {
+					break
+				}
+				t.Block(gate, "token."+call.Op+":stalled")
+			}
+		}
+		results := make([][]outcome, len(sc.Threads))
+		for i, th := range sc.Threads {
+			i, th := i, th
+			s.Go(fmt.Sprintf("t%d", i+1), func() {
+				for k := range th {
+					o := th[k]
+					if t := s.Me(); t != nil {
+						t.Point("begin:" + o.Kind)
+					}
+					stMu.Lock()
+					inflight[i] = &o
+					stMu.Unlock()
+					out := perform(srv, h, o)
+					stMu.Lock()
+					inflight[i] = nil
+					stMu.Unlock()
+					results[i] = append(results[i], out)
+				}
+			})
+		}
+		s.Run()
+		closed := false
+		for _, th := range sc.Threads {
+			for _, o := range th {
+				if o.Kind == "close" {
+					closed = true
+				}
+			}
+		}
+		if !closed {
+			srv.Close()
+		}
+		run.Eval(1)
+		desc := fmt.Sprintf("scenario %s, schedule %v", sc.Name, c.Trace)
+		if keyName != sc.Name {
+			desc = fmt.Sprintf("%s: history %v", keyName, sc.Threads[0])
+		}
+		replay := map[string]any{"scenario": sc.Name, "choices": c.Trace, "labels": c.Labels}
+		if s.Deadlock {
+			run.Violation("sched:deadlock:"+keyName, desc+"\n"+strings.Join(s.Log, " "), replay)
+			return
+		}
+		if s.Horizon {
+			run.Capped("an execution exceeded the scheduling-point horizon: " + sc.Name)
+			return
+		}
+		if len(s.Panics) > 0 {
+			run.Violation("sched:panic:"+keyName, desc+": "+s.Panics[0], replay)
+			return
+		}
+		if c.Deviations() > 0 {
+			run.Distinct(sc.Name + fmt.Sprint(c.Trace))
+		}
+		if c.Deviations() == bound && len(c.Trace) > 8 {
+			run.Sample(map[string]any{"scenario": sc.Name, "choices": c.Trace, "points": len(s.Log)})
+		}
+		if sc.Stall != nil {
+			// who had to wait until the stalled token operation came back?
+			class := "stalled-operation-outlasts-every-other-request"
+			switch {
+			case parked < 0:
+				class = "stall-point-not-reached"
+			case len(waiting) > 0:
+				class = "only-requests-for-the-stalled-token-wait"
+			}
+			for _, o := range waiting {
+				if need := needsToken(o); need != "*" && need != sc.Stall.Tok {
+					what := "needs no token"
+					if need != "" {
+						what = "needs only token " + need
+					}
+					class = "request-waits-for-a-token-it-does-not-need"
+					run.Violation("sched:request-waits-for-stalled-token:"+o.Kind+":"+keyName,
+						fmt.Sprintf("%s: %s (%s) could not be answered while token.%s(%s) of token %s had not returned: with nothing else left to run it was still waiting\n%s",
+							desc, o, what, sc.Stall.Op, sc.Stall.Key, sc.Stall.Tok, strings.Join(s.Log, " ")), replay)
+				}
+			}
+			run.Outcome("sched:" + keyName + ":" + class)
+		}
+		wantAudit := []string{}
+		for _, outs := range results {
+			for _, out := range outs {
+				o := out.Op
+				e, has := exp[o.String()]
+				if keyName != sc.Name && has {
+					// what the histories' requests are answered in isolation
+					cl := o.Client
+					if cl == "" {
+						cl = "r"
+					}
+					run.Outcome(fmt.Sprintf("%s:%s by %s:%d", keyName, o.Kind, cl, e.Status))
+				}
+				switch o.Kind {
+				case "sign":
+					if o.Leaves && out.Status != 200 && strings.Contains(string(out.Body)+out.Extra, "cancel") || o.Leaves && out.Status == 499 {
+						// its own client went away: any failure that says so is this request's own result
+						run.Outcome("sched:" + keyName + ":leaving-client-request-abandoned")
+						continue
+					}
+					if has && e.Status != 200 {
+						// refused in isolation (the client's roles do not grant the key, or the
+						// client is not known): refused the same way here
+						if out.Status != e.Status || !bytes.Equal(out.Body, e.Body) {
+							run.Violation("sched:response-differs-from-isolation:refused-sign:"+keyName, fmt.Sprintf("%s: %s: got %d %.100s want %d %.100s", desc, o, out.Status, out.Body, e.Status, e.Body), replay)
+						}
+						continue
+					}
+					if why := checkSign(o, out); why != "" {
+						run.Violation("sched:sign-response-not-isolated:"+keyName, fmt.Sprintf("%s: %s: %s", desc, o, why), replay)
+					} else {
+						wantAudit = append(wantAudit, fmt.Sprintf("%s|%s|%s|%s", o.Name, targetOf(o.Key), auditHash(o.Digest), clients[o.Client].Nickname))
+					}
+				case "list", "keyinfo", "home":
+					if has && (out.Status != e.Status || !bytes.Equal(out.Body, e.Body)) {
+						run.Violation("sched:response-differs-from-isolation:"+o.Kind+":"+keyName, fmt.Sprintf("%s: %s: got %d %.100s want %d %.100s", desc, o, out.Status, out.Body, e.Status, e.Body), replay)
+					}
+				case "health":
+					if out.Status != 200 && !closed {
+						run.Violation("sched:health-fails:"+keyName, fmt.Sprintf("%s: %d", desc, out.Status), replay)
+					}
+				case "healthcheck":
+					if out.Extra != "true" && !closed {
+						run.Violation("sched:healthcheck-fails:"+keyName, desc, replay)
+					}
+				case "close":
+					if out.Extra != "<nil>" {
+						run.Violation("sched:close-error:"+keyName, desc+": "+out.Extra, replay)
+					}
+				}
+			}
+		}
+		got, torn := auditNames(vos.Snapshot(auditPath))
+		order := strings.Join(got, " < ")
+		seenOrders[order] = true
+		for i := range got {
+			got[i] = strings.ToLower(got[i])
+		}
+		for i := range wantAudit {
+			wantAudit[i] = strings.ToLower(wantAudit[i])
+		}
+		sort.Strings(got)
+		sort.Strings(wantAudit)
+		if torn > 0 || strings.Join(got, ";") != strings.Join(wantAudit, ";") {
+			run.Violation("sched:audit-records-do-not-match-signatures:"+keyName, fmt.Sprintf("%s: audit has %v (torn lines %d), successful signs %v", desc, got, torn, wantAudit), replay)
+		}
+		run.Outcome("sched:" + keyName + ":ok")
+	})
+	return scenarioStats{st.Executions, st.ChoicePoints, seenOrders}
+}
+
 func schedPhase() {
-	defer func() { rateLimited = false }()
+	defer func() { rateLimited, twoTokens = false, false }()
 	for _, sc := range scenarios(run.Thorough()) {
 		bound := 2
 		if run.Thorough() && len(sc.Threads) < 3 {
 			bound = 3
 		}
-		exp := isolation(sc)
-		for k, e := range exp {
-			if e.Op.Kind == "sign" {
-				if why := checkSign(e.Op, e); why != "" {
-					fmt.Println("HARNESS-ERROR: isolated request fails:", k, why)
-					os.Exit(2)
-				}
-			}
-		}
-		seenOrders := map[string]bool{}
-		st := mc.Explore(mc.Options{MaxDeviations: bound}, func(c *mc.Ctx) {
-			vos.Reset()
-			vos.Mkdir("/vfs/audit")
-			vtime.ResetClock()
-			faketoken.Reset()
-			cfg := mkConfig(auditPath)
-			relicx.Use(cfg)
-			srv, err := server.New(cfg)
-			if err != nil {
-				panic(err)
-			}
-			h := srv.Handler()
-			resetLeaves(sc)
-			// the token honours the caller's context the way a rate-limited or
-			// remote token does: a lookup that is overtaken by the client going
-			// away fails with the context's error
-			faketoken.S.GetKey = func(ctx context.Context, tok, key string) (token.Key, error) {
-				return nil, ctx.Err()
-			}
-			s := mc.NewSched(c)
-			faketoken.S.Hook = func(call faketoken.Call) {
-				if t := s.Me(); t != nil {
-					t.Point("token." + call.Op)
-				}
-			}
-			results := make([][]outcome, len(sc.Threads))
-			for i, th := range sc.Threads {
-				i, th := i, th
-				s.Go(fmt.Sprintf("t%d", i+1), func() {
-					for _, o := range th {
-						if t := s.Me(); t != nil {
-							t.Point("begin:" + o.Kind)
-						}
-						results[i] = append(results[i], perform(srv, h, o))
-					}
-				})
-			}
-			s.Run()
-			pingsAtEnd := faketoken.S.Count("ping")
-			closed := false
-			for _, th := range sc.Threads {
-				for _, o := range th {
-					if o.Kind == "close" {
-						closed = true
-					}
-				}
-			}
-			if !closed {
-				srv.Close()
-			}
-			run.Eval(1)
-			desc := fmt.Sprintf("scenario %s, schedule %v", sc.Name, c.Trace)
-			replay := map[string]any{"scenario": sc.Name, "choices": c.Trace, "labels": c.Labels}
-			if s.Deadlock {
-				run.Violation("sched:deadlock:"+sc.Name, desc+"\n"+strings.Join(s.Log, " "), replay)
-				return
-			}
-			if s.Horizon {
-				run.Capped("an execution exceeded the scheduling-point horizon: " + sc.Name)
-				return
-			}
-			if len(s.Panics) > 0 {
-				run.Violation("sched:panic:"+sc.Name, desc+": "+s.Panics[0], replay)
-				return
-			}
-			if c.Deviations() > 0 {
-				run.Distinct(sc.Name + fmt.Sprint(c.Trace))
-			}
-			if c.Deviations() == bound && len(c.Trace) > 8 {
-				run.Sample(map[string]any{"scenario": sc.Name, "choices": c.Trace, "points": len(s.Log)})
-			}
-			wantAudit := []string{}
-			for _, outs := range results {
-				for _, out := range outs {
-					o := out.Op
-					e, has := exp[o.String()]
-					switch o.Kind {
-					case "sign":
-						if o.Leaves && out.Status != 200 && strings.Contains(string(out.Body)+out.Extra, "cancel") || o.Leaves && out.Status == 499 {
-							// its own client went away: any failure that says so is this request's own result
-							run.Outcome("sched:" + sc.Name + ":leaving-client-request-abandoned")
-							continue
-						}
-						if why := checkSign(o, out); why != "" {
-							run.Violation("sched:sign-response-not-isolated:"+sc.Name, fmt.Sprintf("%s: %s: %s", desc, o, why), replay)
-						} else {
-							key := o.Key
-							if key == "aliasA" {
-								key = "rsaA"
-							}
-							wantAudit = append(wantAudit, fmt.Sprintf("%s|%s|%s", o.Name, key, auditHash(o.Digest)))
-						}
-					case "list", "keyinfo", "home":
-						if has && (out.Status != e.Status || !bytes.Equal(out.Body, e.Body)) {
-							run.Violation("sched:response-differs-from-isolation:"+o.Kind+":"+sc.Name, fmt.Sprintf("%s: %s: got %d %.100s want %d %.100s", desc, o, out.Status, out.Body, e.Status, e.Body), replay)
-						}
-					case "health":
-						if out.Status != 200 && !closed {
-							run.Violation("sched:health-fails:"+sc.Name, fmt.Sprintf("%s: %d", desc, out.Status), replay)
-						}
-					case "healthcheck":
-						if out.Extra != "true" && !closed {
-							run.Violation("sched:healthcheck-fails:"+sc.Name, desc, replay)
-						}
-					case "close":
-						if out.Extra != "<nil>" {
-							run.Violation("sched:close-error:"+sc.Name, desc+": "+out.Extra, replay)
-						}
-					}
-				}
-			}
-			got, torn := auditNames(vos.Snapshot(auditPath))
-			order := strings.Join(got, " < ")
-			seenOrders[order] = true
-			for i := range got {
-				got[i] = strings.ToLower(got[i])
-			}
-			for i := range wantAudit {
-				wantAudit[i] = strings.ToLower(wantAudit[i])
-			}
-			sort.Strings(got)
-			sort.Strings(wantAudit)
-			if torn > 0 || strings.Join(got, ";") != strings.Join(wantAudit, ";") {
-				run.Violation("sched:audit-records-do-not-match-signatures:"+sc.Name, fmt.Sprintf("%s: audit has %v (torn lines %d), successful signs %v", desc, got, torn, wantAudit), replay)
-			}
-			_ = pingsAtEnd
-			run.Outcome("sched:" + sc.Name + ":ok")
-		})
+		st := runScenario(sc, bound, sc.Name)
 		run.AddStates(st.Executions)
 		run.AddTransitions(st.ChoicePoints)
-		run.Set("schedules:"+sc.Name, map[string]any{"executions": st.Executions, "preemption_bound": bound, "distinct_audit_orders": len(seenOrders)})
+		info := map[string]any{"executions": st.Executions, "preemption_bound": bound, "distinct_audit_orders": len(st.AuditOrders)}
+		if sc.Stall != nil {
+			info["stalled_token_operation"] = fmt.Sprintf("%s.%s(%s)", sc.Stall.Tok, sc.Stall.Op, sc.Stall.Key)
+		}
+		run.Set("schedules:"+sc.Name, info)
 	}
+}
+
+// ---- (a') histories of requests by clients with different role sets ----
+
+// clientAlphabet: what each client may ask for. The keys are chosen so that every
+// client is granted some and refused others (rsaA: r, rel; nightonly: night;
+// p256B: r, rel, night).
+func clientAlphabet() []op {
+	var ops []op
+	for _, c := range clientOrder {
+		tag := c
+		if tag == "" {
+			tag = "r"
+		}
+		ops = append(ops,
+			by(c, op{Kind: "list"}),
+			by(c, op{Kind: "keyinfo", Key: "aliasA"}),
+			by(c, op{Kind: "keyinfo", Key: "nightonly"}),
+			by(c, op{Kind: "sign", Name: "h-" + tag + ".ps1", Key: "p256B", Digest: "sha256", Desc: "opus-" + tag}),
+		)
+	}
+	return ops
+}
+
+// clientHistories: every sequence of up to depth requests over the alphabet,
+// issued one after the other against one server; each response must be the one
+// the same request gets alone on a fresh server.
+func clientHistories() {
+	defer func() { rateLimited, twoTokens = false, false }()
+	alpha := clientAlphabet()
+	depth := 2
+	if run.Thorough() {
+		depth = 3
+	}
+	total := 0
+	var rec func(prefix []op)
+	rec = func(prefix []op) {
+		if len(prefix) > 0 {
+			if len(prefix) == 3 {
+				// depth 3: listings and key info only (a signature costs a key operation
+				// and two verifications)
+				for _, o := range prefix {
+					if o.Kind == "sign" {
+						return
+					}
+				}
+			}
+			sc := scenario{Name: "client-history", Threads: [][]op{append([]op{}, prefix...)}}
+			// the same request twice in one history would need two names; the second
+			// occurrence is renamed
+			seen := map[string]int{}
+			who := map[string]bool{}
+			for i := range sc.Threads[0] {
+				o := &sc.Threads[0][i]
+				who[o.Client] = true
+				if o.Kind == "sign" {
+					seen[o.Name]++
+					if n := seen[o.Name]; n > 1 {
+						o.Name = fmt.Sprintf("%s-%d.ps1", strings.TrimSuffix(o.Name, ".ps1"), n)
+					}
+				}
+			}
+			st := runScenario(sc, 0, "client-histories")
+			total += st.Executions
+			run.AddStates(st.Executions)
+			run.AddTransitions(st.ChoicePoints)
+			if len(who) > 1 {
+				run.Distinct("client-history|" + fmt.Sprint(sc.Threads[0]))
+			}
+		}
+		if len(prefix) == depth {
+			return
+		}
+		for _, o := range alpha {
+			rec(append(prefix, o))
+		}
+	}
+	rec(nil)
+	views := map[string]string{}
+	for k, e := range isoCache {
+		if e.Op.Kind == "list" && strings.HasPrefix(k, "false|false|") {
+			cl := e.Op.Client
+			if cl == "" {
+				cl = "r"
+			}
+			views[cl] = fmt.Sprintf("%d %s", e.Status, strings.TrimSpace(string(e.Body)))
+		}
+	}
+	run.Set("client_histories", map[string]any{"clients": len(clientOrder), "alphabet": len(alpha), "depth": depth, "histories": total, "key_listing_in_isolation": views})
 }
 
 func auditHash(d string) string {
@@ -556,6 +943,7 @@ func racePass() {
 	// health loop - an artefact of the harness, not of a deployment.
 	faketoken.Reset()
 	audit := filepath.Join(dir, "audit.log")
+	twoTokens = true // the one server of this pass serves every scenario's keys
 	cfg := mkConfig(audit)
 	relicx.Use(cfg)
 	srv, err := server.New(cfg)
@@ -766,6 +1154,7 @@ func main() {
 	defer os.RemoveAll(dir)
 	scratch = dir
 	schedPhase()
+	clientHistories()
 	shutdownPhase()
 	// race pass in the -race binary
 	cmd := exec.Command("/verif/.build/bin/c14race")
@@ -799,7 +1188,9 @@ func main() {
 		run.Capped(fmt.Sprintf("race pass did not complete: %v", rerr))
 	}
 	_ = context.Background
-	run.Rule("(a) for each of 8 (thorough 10) scenarios of 2-3 threads (sign with two keys, same key, alias, list/keyinfo, health check + /health, key-cache expiry between signs, Close (then Close again) during a health check and /health, three signers): every interleaving with <=2 preemptions (thorough 3 for 2-thread scenarios) over the hooked mutex/token/audit-file operations; oracle per request = result in isolation (patch applied to that request's body verifies, names its key, digest and description), audit lines = successful signs; (b) free-running -race pass; (c) daemon.Close released at 2 hooked points of an in-flight request on a real loopback daemon. distinct_nontrivial = schedules with at least one preemption")
+	run.Rule("(a) for each of 19 (thorough 26) scenarios of 2-3 threads (sign with two keys, same key, alias, list/keyinfo, health check + /health, key-cache expiry between signs, Close (then Close again) during a health check and /health, three signers, a client hanging up, rate-limited tokens, gzip responses; requests by clients with different role sets (r, rel, night, rel+night, a role no key lists) over keys with different role lists overlapping; and 5 (thorough 8) scenarios in which the first token.ping / token.getkey(key) / token.sign(key) reached does not return until no thread can take a step any more, on one token or with a second token configured): every interleaving with <=2 preemptions (thorough 3 for 2-thread scenarios) over the hooked mutex/token/audit-file operations; oracle per request = result in isolation (patch applied to that request's body verifies, names its key, digest and description; a refused request is refused with the same status and body; listings, key info, home byte-equal), audit lines = successful signs with the signing client's name, and in the stall scenarios: a request that needs no token (health, list_keys, home) or only the other token must not be among the requests that are still waiting when nothing but the stalled token operation is left to finish; (a') every history of <=2 (thorough <=3, without signing at depth 3) requests from the alphabet {list_keys, key info of a key granted to r+rel, key info of a key granted to night only, sign with a key granted to r+rel+night} x 6 clients (the five role sets and a certificate the server does not know) issued sequentially against one server, same oracle; (b) free-running -race pass over all scenarios' thread bodies; (c) daemon.Close released at 2 hooked points of an in-flight request on a real loopback daemon. distinct_nontrivial = schedules with at least one preemption, and histories with at least two different clients")
+	run.Assume("a stalled token operation is modelled at its extreme: it outlasts everything else that can happen (the scheduler releases it only when no thread is enabled); intermediate durations are not enumerated separately")
+	run.Assume("clients are told apart by certificate fingerprint (config clients.<fingerprint>); clients authenticated through a CA certificate or a policy server are not enumerated")
 	run.Assume("net/http's own goroutines are not under the scheduler; the shutdown clause is explored only at the handler's hooked points")
 	run.Assume("the 'no data race' clause rests on the race detector over free-running executions (not exhaustive)")
 	os.RemoveAll(dir) // Finish exits the process: deferred calls do not run
